@@ -11,42 +11,42 @@ from . import common as C
 from . import translate_shapes as T
 
 
-def static_part(ctx):
+def static_part(ctx, T=T, stem="Shapes", prefix="shape"):
     """returns (offending site names, table)"""
     sites = T.analyse(C.REPO)
-    out = C.LEAN / "PsVerif" / "Generated" / "Shapes.lean"
+    out = C.LEAN / "PsVerif" / "Generated" / f"{stem}.lean"
     table = T.emit(sites, out)
     ctx.extra["generated_obligations"] = len(table)
     ctx.extra["generated_shape_sites"] = [t["function"] for t in table]
     for t in table[:2]:
         if t["found"]:
             ctx.sample({"generated_shape_expression": t["site"], "function": t["function"], "lean": t["lean"]}, limit=2)
-    r = subprocess.run(["lake", "build", "PsVerif.Generated.Shapes"], cwd=C.LEAN, capture_output=True, text=True, timeout=3600)
+    r = subprocess.run(["lake", "build", f"PsVerif.Generated.{stem}"], cwd=C.LEAN, capture_output=True, text=True, timeout=3600)
     ctx.extra["generated_build_ok"] = r.returncode == 0
     missing = [t["site"] for t in table if not t["found"]]
     if r.returncode == 0:
         names = [f"PsVerif.Gen.{t['theorem']}" for t in table if t["found"]] + \
-                [f"PsVerif.Gen.{'loop' if t['site'] == 'Polygon' else 'indices'}_{t['site']}" for t in table if t["found"]]
-        aud = C.LEAN / "Audit" / "GeneratedShapes.lean"
-        text_a = "import PsVerif.Generated.Shapes\n" + "\n".join(f"#print axioms {n}" for n in names) + "\n"
+                [f"PsVerif.Gen.{'loop' if t['site'] == 'Polygon' else 'indices'}_{t['site']}" for t in table if t["found"] and t["site"] != "DfBox"]
+        aud = C.LEAN / "Audit" / f"Generated{stem}.lean"
+        text_a = f"import PsVerif.Generated.{stem}\n" + "\n".join(f"#print axioms {n}" for n in names) + "\n"
         if not aud.exists() or aud.read_text() != text_a:
             aud.write_text(text_a)
-        ra = subprocess.run(["lake", "env", "lean", "Audit/GeneratedShapes.lean"], cwd=C.LEAN, capture_output=True, text=True, timeout=3600)
-        flat = (ra.stdout + ra.stderr).replace("\n ", " ").replace("\n", " ")
+        ra_rc, ra_out = C.cached_lean_audit(f"Audit/Generated{stem}.lean".split("/", 1)[1])
+        flat = (ra_out).replace("\n ", " ").replace("\n", " ")
         axioms = {}
-        for m in re.finditer(r"'PsVerif\.Gen\.((?:shape|indices|loop)_\w+)' (?:depends on axioms: \[([^\]]*)\]|does not depend on any axioms)", flat):
+        for m in re.finditer(r"'PsVerif\.Gen\.((?:shape|indices|loop|box)_\w+)' (?:depends on axioms: \[([^\]]*)\]|does not depend on any axioms)", flat):
             axioms[m.group(1)] = [a.strip() for a in (m.group(2) or "").split(",") if a.strip()]
         nonstd = {k: [a for a in v if a not in C.ALLOWED_AXIOMS] for k, v in axioms.items()}
         nonstd = {k: v for k, v in nonstd.items() if v}
         ctx.extra["generated_axioms"] = sorted({a for v in axioms.values() for a in v})
-        if ra.returncode != 0 or len(axioms) != len(names) or nonstd:
-            raise C.HarnessError(f"axiom audit of the generated shape theorems failed: {nonstd or (ra.stdout + ra.stderr)[-800:]}")
+        if ra_rc != 0 or len(axioms) != len(names) or nonstd:
+            raise C.HarnessError(f"axiom audit of the generated shape theorems failed: {nonstd or ra_out[-800:]}")
         ctx.extra["generated_theorems"] = sorted(axioms)
         return missing, table
     text = out.read_text().splitlines()
-    starts = [(i + 1, m.group(1)) for i, l in enumerate(text) for m in [re.match(r"theorem shape_(\w+?)(?:_edge)? ", l)] if m]
+    starts = [(i + 1, m.group(1)) for i, l in enumerate(text) for m in [re.match(r"theorem (?:shape|box)_(\w+?)(?:_edge)? ", l)] if m]
     bad = []
-    for m in re.finditer(r"(?:error: \S*Shapes\.lean:(\d+):\d+)|(?:Shapes\.lean:(\d+):\d+: error)", r.stdout + r.stderr):
+    for m in re.finditer(r"(?:error: \S*" + stem + r"\.lean:(\d+):\d+)|(?:" + stem + r"\.lean:(\d+):\d+: error)", r.stdout + r.stderr):
         ln = int(m.group(1) or m.group(2))
         owner = None
         for s, name in starts:
